@@ -2,10 +2,15 @@
 
 Decided: non-negativity, <= 1 for n > 2 teams, independence of team and player
 order (exact identities on several executions of the real predict_draw over
-the same symbols).  The closed form itself is C12's obligation.
-NOT decided (analytic, see DESIGN section 6): <= 1 for two teams, monotonicity
-in the mu gap, 'equalising never lowers' - they follow from the closed form and
-the assumed calculus lemma L-band, no contract within reach decides them."""
+the same symbols), and that the value is the average over ordered pairs of the
+band probability band(m, s_ab, d_ab) = Phi((m-d)/s) - Phi((-m-d)/s) with m and
+s_ab independent of the mus.  Monotonicity in the mu gap (two teams) and
+'equalising never lowers' (n teams) then follow from L-band (the band
+probability is even in d and non-increasing in |d|), which is machine-checked
+against Mathlib in lemmas/Phi2.lean (band_even, band_antitone_on_nonneg,
+band_le_band_zero); the last step is a generic z3 lemma per pair count.
+NOT decided: <= 1 for two teams (needs the numeric constants
+sqrt(N/2) PhiInv(1/2 + 1/(2N)) <= PhiInv(3/4), N = 2..16)."""
 from __future__ import annotations
 
 import time
@@ -42,6 +47,8 @@ def unit(model, sizes):
             pls.append((i, W.run("predict_draw", player_order={i: po})))
     sd = W.spec("draw")
     second, beta2 = W.run_second_instance("predict_draw")
+    details = {}
+    W.spec("draw", details=details)
     P = W.prover()
     mono = W.phi_monotone(P)
     d = term(base[1])
@@ -52,6 +59,15 @@ def unit(model, sizes):
     recs.append(ge_rec(P, f"C10/{model}/predict_draw/nonneg@{shape}", d, zero, fn, shape, rp, extra=mono))
     if n > 2:
         recs.append(ge_rec(P, f"C10/{model}/predict_draw/upper@{shape}", one, d, fn, shape, rp, extra=mono))
+    # the value is the ordered-pair average of band probabilities whose margin m and scales s_ab do not
+    # mention any mu, and whose gap d_ab is the difference of the two teams' total mu (premise of L-band)
+    recs.append(eq_rec(P, f"C10/{model}/predict_draw/is-average-of-band-probabilities@{shape}", d, term(sd), fn, shape, dict(rp, kind="c12_closed", op="predict_draw")))
+    if details:
+        from ..game import free_symbols
+        mus = {f"mu_{i}_{j}" for i in range(n) for j in range(sizes[i])}
+        clean = not (free_symbols([term(details["m"])] + [term(x) for x in details["s"].values()]) & mus)
+        recs.append(driver.rec(f"C10/{model}/predict_draw/margin-and-scales-do-not-depend-on-mu@{shape}", "discharged" if clean else "refuted", "syntactic", 0,
+                               fn=fn, shape=shape, mode="R", replay=None if clean else rp))
     wrong = P.prove_ge(d, z3.RealVal("9/10"), extra_hyps=mono)[0] == "discharged"
     recs.append(driver.rec(f"C10/{model}/predict_draw/canary-at-least-0.9@{shape}", "discharged" if wrong else "refuted", "field+z3", 0, kind="canary",
                            fn=fn, shape=shape, replay=dict(rp, clause="canary")))
@@ -77,11 +93,50 @@ def unit(model, sizes):
             recs.append(eq_rec(P, f"C10/{model}/predict_draw/player-order-invariant[team{i}]@{shape}", term(out[1]), d, fn, shape, rp))
         else:
             recs.append(driver.rec(f"C10/{model}/predict_draw/player-order-invariant[team{i}]@{shape}", "refuted", "explorer", 0, fn=fn, shape=shape, replay=rp))
+    from .predutil import history_records
+    if n <= 3:
+        recs += history_records("C10", W, model, sizes, ("predict_draw",))
     return recs
 
 
+def unit_lemmas():
+    """the last step from L-band (Lean: band_even, band_antitone_on_nonneg, band_le_band_zero) to the two
+    clauses, with the band probability of each unordered pair as an uninterpreted function of the gap"""
+    from .computil import generic_lemma
+    recs = []
+    R = z3.RealSort()
+    absf = lambda x: z3.If(x >= 0, x, -x)
+
+    def two_team():
+        B = z3.Function("Band", R, R)          # d |-> band(m, s, d), m >= 0 and s > 0 fixed
+        d1, d2 = z3.Reals("d1 d2")
+        inst = [B(-d1) == B(d1), B(-d2) == B(d2),                                  # band_even
+                z3.Implies(z3.And(absf(d1) >= 0, absf(d1) <= absf(d2)), B(absf(d2)) <= B(absf(d1))),   # band_antitone_on_nonneg
+                B(absf(d1)) == z3.If(d1 >= 0, B(d1), B(-d1)), B(absf(d2)) == z3.If(d2 >= 0, B(d2), B(-d2))]
+        # two teams: value(d) = band(d) + band(-d)
+        return inst + [absf(d1) <= absf(d2)], B(d2) + B(-d2) <= B(d1) + B(-d1)
+    recs.append(generic_lemma("C10/lemma/two-teams-gap-monotone-from-L-band", two_team, fn="lemma"))
+    for npairs in (1, 3, 6, 10, 15, 21, 28):
+        def equalise(npairs=npairs):
+            Bs = [z3.Function(f"Band{k}", R, R) for k in range(npairs)]     # one per unordered pair (its own s_ab)
+            ds = [z3.Real(f"d{k}") for k in range(npairs)]
+            inst = []
+            for B, d in zip(Bs, ds):
+                inst += [B(d) <= B(0), B(-d) <= B(0)]                              # band_le_band_zero
+            D = z3.Real("D")
+            return inst + [D > 0], z3.Sum([B(d) + B(-d) for B, d in zip(Bs, ds)]) / D <= z3.Sum([B(0) + B(0) for B in Bs]) / D
+        recs.append(generic_lemma(f"C10/lemma/equalising-never-lowers-from-L-band[{npairs} pairs]", equalise, fn="lemma"))
+    return recs
+
+
+def unit_lean():
+    from .util import lean_check
+    return [lean_check("C10/lemmas/L-band-checked-by-Lean-Mathlib", "Phi2.lean")]
+
+
 def units(tier):
-    return [("unit", (m, s)) for m in extract.MODELS for s in shapes(tier, nmax=3 if tier == "quick" else 5)]
+    return [("unit_lemmas", ())] + ([("unit_lean", ())] if tier == "thorough" else []) + \
+        [("unit", (m, s)) for m in extract.MODELS for s in shapes(tier, nmax=3 if tier == "quick" else 5)]
 
 
 def main(tier, seed):
@@ -93,11 +148,12 @@ def main(tier, seed):
         functions=fns,
         assumptions=[
             "A-Phi (0 < Phi < 1, reflection, monotone instances), PhiInv increasing with PhiInv(1/2) = 0; phi_major / phi_major_inverse enter as Phi / PhiInv (C17)",
-            "NOT DECIDED: predict_draw <= 1 for two teams, non-increase in the mu gap (two teams), 'equalising never lowers' (n teams): these are calculus facts about the band probability (assumed lemma L-band + tabulated constants), no contract within reach decides them; the code-facing half - the closed form - is decided",
+            "L-band (the band probability Phi((m-d)/s) - Phi((-m-d)/s), m >= 0, s > 0, is even in d and non-increasing in |d|): machine-checked against Mathlib in lemmas/Phi2.lean (thorough tier); 'never increases as the gap widens' (two teams) and 'equalising never lowers' (n teams) are decided as: the code's value is the ordered-pair average of band probabilities with mu-free margin and scales (exact normal-form identity on the real predict_draw) + L-band + a generic z3 step",
+            "NOT DECIDED: predict_draw <= 1 for two teams (needs the numeric constants sqrt(N/2) PhiInv(1/2 + 1/(2N)) <= PhiInv(3/4) for N = 2..16; no contract within reach decides them)",
             "A-fp: reals; order independence 'beyond rounding' is exact equality over the reals",
             "shape-bounded (coverage.shapes)",
         ],
         explanation=("Several executions of the real predict_draw on the same symbolic teams (base, adjacent team transpositions, swapped players): the value is the closed form |S|/D with S >= 0 proved from Phi-monotonicity instances (so abs is the identity), non-negative, <= 1 for more than two teams, and identical - as exact normal forms - under reordering of teams and of players. "
-                     "The three analytic clauses are listed as not decided."),
+                     "The value is also proved to be the ordered-pair average of band probabilities whose margin and scales mention no mu, from which the two monotonicity clauses follow by the Lean-checked lemma L-band; '<= 1 for two teams' is listed as not decided."),
         shapes=[str(s) for s in shapes(tier, nmax=3 if tier == "quick" else 5)],
     )
